@@ -153,8 +153,8 @@ def native_confirm(task, viol):
         # the written file must not depend on the schedule: compare the bytes across sleep-perturbed native runs
         seen = {}
         for seed in range(0, 40):
-            nr = native_run(task.text, task.entry, viol['inputs'], timeout=30,
-                            env_extra={'VP_CHAOS': str(seed * 7919)} if seed else None)
+            envx = {'VP_CHAOS': str(seed * 7919)} if seed > 1 else ({'VP_DELAY_AT': 'before_close'} if seed == 1 else None)
+            nr = native_run(task.text, task.entry, viol['inputs'], timeout=30, env_extra=envx)
             for tag, bs in nr['outs']:
                 if tag == 'file':
                     seen.setdefault(bytes(bs), seed)
@@ -341,6 +341,7 @@ def run_property(pid, tasks, tier, seed, meta):
     n_paths = n_steps = n_q = 0
     solver_s = 0.0
     obl_s = obl_n = obl_f = 0
+    cross_n = cross_bad = 0
     funcs = set()
     per_task = []
     for r in results:
@@ -355,6 +356,8 @@ def run_property(pid, tasks, tier, seed, meta):
         obl_s += r['obligations_solver']
         obl_n += r['obligations_normalised']
         obl_f += r['obligations_failed']
+        cross_n += r.get('crosschecked', 0)
+        cross_bad += r.get('cross_disagree', 0)
         funcs.update(f for f in r['funcs'] if 'Vector' in f)
         if r['status'] != 'done':
             broken.append('%s: %s %s' % (t.tid, r['status'], r['error'][:400]))
@@ -459,6 +462,9 @@ def run_property(pid, tasks, tier, seed, meta):
     for b in val_bad:
         print('CHECK-ERROR property=%s executor/native disagreement: %s' % (pid, b))
         rc = rc or 2
+    if cross_bad:
+        print('CHECK-ERROR property=%s z3 and cvc5 disagree on %d of %d cross-checked queries' % (pid, cross_bad, cross_n))
+        rc = rc or 2
     wall = time.time() - t0
     samples = []
     for r, t in zip(results, tasks):
@@ -480,6 +486,7 @@ def run_property(pid, tasks, tier, seed, meta):
             obligations_solver=obl_s, obligations_normalised=obl_n, obligations_failed=obl_f,
             harnesses=len(tasks), symbolic_paths=n_paths, ir_instructions_executed=n_steps,
             solver_queries=n_q, solver_time_s=round(solver_s, 2),
+            solver_crosscheck=dict(queries_repeated_with_cvc5=cross_n, disagreements=cross_bad),
             checker_cmd='./check %s --tier %s' % (pid, tier),
             trusted_base=meta.get('trusted_base', []),
             explanation=meta.get('explanation', ''),
